@@ -2,6 +2,44 @@ import HexProofs.Framework.Gen.KC
 import HexProofs.Numeric.SeriesATR
 import HexProofs.Numeric.SeriesRSI
 import HexProofs.Numeric.Channel
+/-!
+# Keltner Channel: the whole series (closes the KC item of `C05_FULL`)
+
+`kcTree name round p input mult` (HexProofs/Framework/Gen/KC.lean) is the `TreeSpec` of a KC node:
+prior ATR helper `name_ATR` (itself with a prior TR helper `name_ATR_TR`), prior EMA helper
+`name_EMA` (smoothing `2.0`), read-only own reading.  Its row step runs, on every candle, TR, ATR,
+EMA, own – in that order, each reading stored (rounded) before the next piece runs (`kc_rowStep`).
+This file proves, for EVERY raw candle list, what the row-major run – and hence the engine's
+`calculate()`, the batch run and every append schedule (`TreeSpec.engine`, `batch_iff`,
+`live_refines`) – stores on every candle.
+
+Facts of the library / model reflected in the statements (read off `HexModel/Ind/*.lean` and
+`children` in `HexModel/Core/Eval.lean`):
+* all three helpers are rounded by the engine to `defaultRound = 4` decimals (TR: ints stay ints),
+  the own dict to the node's `round`;
+* TR is `None` on candle 0; hence ATR is `None` on candles `0 … p−1` and first holds on candle `p`
+  (mean of the stored `TR₁ … TR_p`), then Wilder's recurrence on the STORED predecessor;
+* EMA (`reading_period(p, input)`) first holds on candle `p − 1` (mean of the first `p` inputs), then
+  `α·x + (1−α)·prev` on the stored predecessor, `α = 2/(p+1)`;
+* the own reading is never `None`: it is the dict `{lower: None, band: None, upper: None}` while a
+  helper has no reading, i.e. on candles `0 … p−1` (on candle `p−1` the EMA already has one), and
+  from candle `p` on `{lower: rnd(E − m·A), band: rnd(E), upper: rnd(E + m·A)}` computed from the
+  STORED helper readings `E`, `A`.
+
+* textbook series: `emaExact` / `emaSeries`, `atrExact` (SeriesATR), `kcSeries : ℕ → Option (K × K × K)`;
+* predicates: `KcOK` (the four stored readings of one candle), `KcOwnOK` (own dict vs `kcSeries`),
+  `KcSeriesOK` (a finished candle list, reading by reading);
+* rounding budget (no growth: both recurrences contract): stored EMA within `ε₄/α`, stored ATR within
+  `p·ε₄` of Wilder's average of the stored true ranges (`+ ε₄` against the exact true ranges: the TR
+  helper's readings are themselves rounded), hence
+  `|band − EMA| ≤ ε_n + ε₄/α`, `|lower/upper − (EMA ∓ m·ATR)| ≤ ε_n + ε₄/α + |m|·p·ε₄` (`+ |m|·ε₄`);
+  `lower ≤ band ≤ upper` for `m ≥ 0` (monotone rounding, ATR ≥ 0);
+* theorems: `kc_step` (one row, from `tr_stepCtx` / `atr_stepCtx` / `ema_stepCtx` / `kc_def`),
+  `kc_series` (induction along `Gen.rowMajor`), `kc_series_readings`, `kc_engine`, `kc_batch`,
+  `kc_batch_readings`, `kc_live`.
+* hypothesis `2 ≤ p`: as in `C04.ema_series` (the seed-window lemma `ema_seed_window` needs an
+  active index `≥ 1`); `kcTree` itself exists for `p ≥ 1`.
+-/
 set_option linter.unusedSectionVars false
 set_option linter.unusedSimpArgs false
 namespace Hex
@@ -323,7 +361,7 @@ theorem getD_map_of_lt {R : Type} (f : R → Val K) (rows : List R) (d : R) (j :
 /-! ### one row of the KC tree inside the series -/
 
 theorem kc_step (p : Nat) (hp : 2 ≤ p) (nm input : String) (fld : Candle K → Num K) (n : Nat) (mult : Num K)
-    (hk : IsKey nm) (hn : KcNames nm) (hin : NoDot input ∧ input ∈ Candle.attrNames)
+    (hn : KcNames nm) (hin : NoDot input ∧ input ∈ Candle.attrNames)
     (hattr : ∀ c : Candle K, c.attr input = some (.num (fld c)))
     (raw : List (Candle K)) (hraw : ∀ c ∈ raw, Plain c)
     (m : Nat) (hm : m < raw.length) (rows : List (KcRow K)) (hrows : rows.length = m)
@@ -483,12 +521,361 @@ theorem kc_step (p : Nat) (hp : 2 ≤ p) (nm input : String) (fld : Candle K →
           (setKey true (nm ++ "_ATR" ++ "_TR") (trStored raw m) (raw.getD m default)))],
                 i := done.length, name := nm } : Ctx K).reading (nm ++ "_ATR") = .ok (w.roundBy defaultRound) := by
     rw [Ctx.reading_cur done _ [] nm, kcMid_atr nm hn _ hc]
-  have hO : valOf (kcP nm n (p : Int) input mult) done
-      (setKey true (nm ++ "_EMA") (v.roundBy defaultRound)
-        (setKey true (nm ++ "_ATR") (w.roundBy defaultRound)
-          (setKey true (nm ++ "_ATR" ++ "_TR") (trStored raw m) (raw.getD m default))))
-      = .ok ((kcBands mult n (v.roundBy defaultRound) (w.roundBy defaultRound))) ∨ True := Or.inr trivial
-  sorry
+  by_cases hmp : m < p
+  · have hwn : w.roundBy defaultRound = .none := hwOK.1.1 (by omega)
+    have hO : valOf (kcP nm n (p : Int) input mult) done
+        (setKey true (nm ++ "_EMA") (v.roundBy defaultRound)
+          (setKey true (nm ++ "_ATR") (w.roundBy defaultRound)
+            (setKey true (nm ++ "_ATR" ++ "_TR") (trStored raw m) (raw.getD m default))))
+        = .ok kcNoneDict := by
+      show Calc.kc _ mult = _
+      exact kc_none _ mult _ _ hrE hrA (Or.inr (by rw [hwn]; rfl))
+    refine ⟨⟨trStored raw m, w.roundBy defaultRound, v.roundBy defaultRound,
+      kcBands mult n (v.roundBy defaultRound) (w.roundBy defaultRound)⟩, ?_, rfl, hwOK, hvOK, rfl⟩
+    rw [hO]
+    simp only [pym_bind_ok, pym_pure]
+    show Except.ok (done ++ [setKey false nm ((kcNoneDict : Val K).roundBy n) _]) = _
+    rw [hwn, kcBands_none_right]
+    rfl
+  · obtain ⟨av, hav, _⟩ := hwOK.1.2 (by omega)
+    obtain ⟨ev, hev, _⟩ := hvOK.2 (by omega)
+    rw [hav] at hrE hrA hwOK ⊢
+    rw [hev] at hrE hrA hvOK ⊢
+    have hO := kc_def _ mult (.flt ev) (.flt av) hrE hrA
+    refine ⟨⟨trStored raw m, .flt av, .flt ev, kcBands mult n (.flt ev) (.flt av)⟩, ?_, rfl, hwOK, hvOK, rfl⟩
+    have hO' : valOf (kcP nm n (p : Int) input mult) done
+        (setKey true (nm ++ "_EMA") (.flt ev)
+          (setKey true (nm ++ "_ATR") (.flt av)
+            (setKey true (nm ++ "_ATR" ++ "_TR") (trStored raw m) (raw.getD m default)))) = _ := hO
+    rw [hO']
+    simp only [pym_bind_ok, pym_pure]
+    show Except.ok (done ++ [setKey false nm (Val.roundBy n _) _]) = _
+    rw [kcBands_flt]
+    rfl
+
+/-! ### the whole series -/
+
+/-- the candles of a KC run: raw candle `j` with the four readings `rows[j]` -/
+def decoKc (nm : String) (raw : List (Candle K)) (rows : List (KcRow K)) : List (Candle K) :=
+  decoWith (kcOut nm) raw rows
+
+/-- **Keltner Channel, whole series** (row-major run of `kcTree`; `period ≥ 2`, input a candle
+field).  For EVERY raw list the run returns; the result is the raw candles with, on candle `j`, the
+four readings `rows[j]` (`name_ATR_TR`, `name_ATR`, `name_EMA` in `.sub_indicators`, the own dict in
+`.indicators`), and every row satisfies `KcOK`. -/
+theorem kc_series (p : Nat) (hp : 2 ≤ p) (nm input : String) (fld : Candle K → Num K) (n : Nat) (mult : Num K)
+    (hn : KcNames nm) (hin : NoDot input ∧ input ∈ Candle.attrNames)
+    (hattr : ∀ c : Candle K, c.attr input = some (.num (fld c)))
+    (raw : List (Candle K)) (hraw : ∀ c ∈ raw, Plain c) :
+    ∃ rows : List (KcRow K), rows.length = raw.length ∧
+      Gen.rowMajor (kcTree (F := K) nm n (p : Int) input mult (by omega) hn hin).S raw = .ok (decoKc nm raw rows) ∧
+      ∀ j, j < raw.length → KcOK p n mult (fieldAt fld raw) raw j (rows.getD j KcRow.dflt) :=
+  gen_series_induct _ (kcOut nm) KcRow.dflt raw _
+    (fun m hm rows hrows hQ => kc_step p hp nm input fld n mult hn hin hattr raw hraw m hm rows hrows hQ)
+
+/-! ### the own reading against the textbook channel -/
+
+/-- a stored own reading against the textbook channel `o = (lower, middle, upper)`: the
+three-`None` dict where the channel has no value; otherwise a dict of three floats, the middle one
+within `ε_n + δe` and the outer ones within `ε_n + δe + |m|·δa` of the textbook values (`δe`, `δa`:
+how far the stored EMA / ATR helper readings are from the textbook EMA / ATR), and – for a
+non-negative multiplier – ordered `lower ≤ middle ≤ upper` -/
+def KcOwnOK (n : Nat) (δe δa mult : K) (o : Option (K × K × K)) (v : Val K) : Prop :=
+  match o with
+  | none => v = kcNoneDict
+  | some (lo, mid, up) => ∃ l b u : K,
+      v = .dict [("lower", .num (.flt l)), ("band", .num (.flt b)), ("upper", .num (.flt u))] ∧
+      |l - lo| ≤ eps K n + δe + |mult| * δa ∧ |b - mid| ≤ eps K n + δe ∧
+      |u - up| ≤ eps K n + δe + |mult| * δa ∧ (0 ≤ mult → l ≤ b ∧ b ≤ u)
+
+theorem round_combo_err (n : Nat) (e a E A m δe δa sgn : K) (hs : |sgn| = 1)
+    (he : |e - E| ≤ δe) (ha : |a - A| ≤ δa) :
+    |PyF.round n (e + sgn * (m * a)) - (E + sgn * (m * A))| ≤ eps K n + δe + |m| * δa := by
+  have h1 := LawfulPyF.round_err (K := K) n (e + sgn * (m * a))
+  have h2 : |(e + sgn * (m * a)) - (E + sgn * (m * A))| ≤ δe + |m| * δa := by
+    have e1 : (e + sgn * (m * a)) - (E + sgn * (m * A)) = (e - E) + sgn * (m * (a - A)) := by ring
+    rw [e1]
+    calc |(e - E) + sgn * (m * (a - A))| ≤ |e - E| + |sgn * (m * (a - A))| := abs_add_le _ _
+      _ = |e - E| + |m| * |a - A| := by rw [abs_mul, hs, one_mul, abs_mul]
+      _ ≤ δe + |m| * δa := add_le_add he (mul_le_mul_of_nonneg_left ha (abs_nonneg _))
+  calc |PyF.round n (e + sgn * (m * a)) - (E + sgn * (m * A))|
+      = |(PyF.round n (e + sgn * (m * a)) - (e + sgn * (m * a)))
+          + ((e + sgn * (m * a)) - (E + sgn * (m * A)))| := by ring_nf
+    _ ≤ _ := abs_add_le _ _
+    _ ≤ eps K n + (δe + |m| * δa) := add_le_add h1 h2
+    _ = _ := by ring
+
+/-- the own reading of a `KcOK` row against the textbook channel over ANY true-range series `tr`
+whose Wilder average the stored ATR reading approximates within `δa` -/
+theorem KcOK.own (p : Nat) (n : Nat) (mult : Num K) (x tr : Nat → K) (raw : List (Candle K)) (j : Nat)
+    (r : KcRow K) (δa : K) (h : KcOK p n mult x raw j r)
+    (hδ : ∀ a : K, r.atr = .flt a → |a - atrExact p (trS raw) j| ≤ eps K defaultRound / (1 / (p : K)) →
+      |a - atrExact p tr j| ≤ δa) :
+    KcOwnOK n (eps K defaultRound / kcAlpha K p) δa mult.toF (kcSeries p mult.toF x tr j) r.own := by
+  obtain ⟨_, ⟨hA, hA0⟩, hE, hown⟩ := h
+  unfold kcSeries
+  by_cases hj : j < p
+  · rw [if_pos hj, hown, hA.1 (by omega), kcBands_none_right]
+    rfl
+  · rw [if_neg hj]
+    obtain ⟨a, ha, hab⟩ := hA.2 (by omega)
+    obtain ⟨e, he, heb⟩ := hE.2 (by omega)
+    have ha0 := hA0 a ha
+    have hab' := hδ a ha hab
+    rw [hown, ha, he]
+    refine ⟨_, _, _, rfl, ?_, ?_, ?_, ?_⟩
+    · have := round_combo_err n e a (emaExact p x j) (atrExact p tr j) mult.toF _ δa (-1) (by simp) heb hab'
+      simpa [sub_eq_add_neg] using this
+    · calc |PyF.round n e - emaExact p x j|
+          = |(PyF.round n e - e) + (e - emaExact p x j)| := by ring_nf
+        _ ≤ _ := abs_add_le _ _
+        _ ≤ _ := add_le_add (LawfulPyF.round_err n e) heb
+    · have := round_combo_err n e a (emaExact p x j) (atrExact p tr j) mult.toF _ δa 1 (by simp) heb hab'
+      simpa using this
+    · intro hm
+      have hma : 0 ≤ mult.toF * a := mul_nonneg hm ha0
+      exact ⟨LawfulPyF.round_mono n (by linarith), LawfulPyF.round_mono n (by linarith)⟩
+
+/-- … against the channel of the STORED true ranges (`δa = p·ε₄`) -/
+theorem KcOK.own_stored (p n : Nat) (mult : Num K) (x : Nat → K) (raw : List (Candle K)) (j : Nat)
+    (r : KcRow K) (h : KcOK p n mult x raw j r) :
+    KcOwnOK n (eps K defaultRound / kcAlpha K p) (eps K defaultRound / (1 / (p : K))) mult.toF
+      (kcSeries p mult.toF x (trS raw) j) r.own :=
+  KcOK.own p n mult x (trS raw) raw j r _ h (fun _ _ hb => hb)
+
+/-- … against the channel of the EXACT true ranges of the raw candles (`δa = p·ε₄ + ε₄`: the TR
+helper's readings are themselves rounded to 4 decimals before ATR reads them) -/
+theorem KcOK.own_true (p n : Nat) (hp : 1 ≤ p) (mult : Num K) (x : Nat → K) (raw : List (Candle K)) (j : Nat)
+    (r : KcRow K) (h : KcOK p n mult x raw j r) :
+    KcOwnOK n (eps K defaultRound / kcAlpha K p) (eps K defaultRound / (1 / (p : K)) + eps K defaultRound)
+      mult.toF (kcSeries p mult.toF x (trExact raw) j) r.own := by
+  refine KcOK.own p n mult x (trExact raw) raw j r _ h (fun a _ hb => ?_)
+  have hd := atrExact_stored_vs_true p hp raw j
+  calc |a - atrExact p (trExact raw) j|
+      = |(a - atrExact p (trS raw) j) + (atrExact p (trS raw) j - atrExact p (trExact raw) j)| := by ring_nf
+    _ ≤ _ := abs_add_le _ _
+    _ ≤ _ := add_le_add hb hd
+
+/-! ### the finished candles, reading by reading -/
+
+/-- **what the whole-series theorem says of a finished candle list `out`** of a KC tree named `nm`
+(period `p`, rounding `n`, multiplier `mult`, input field `fld`) over the raw candles `raw`:
+same length, and candle `j` is the raw candle `j` carrying
+* under `nm_ATR_TR` the stored true range `trStored raw j` (`None` on candle 0, else
+  `max(h−l, |h−c₋₁|, |l−c₋₁|)` rounded to 4 decimals);
+* under `nm_ATR` a reading that is `AtrOK` (w.r.t. the stored true ranges: `None` for `j < p`, then
+  non-negative and within `p·ε₄` of Wilder's average) and `AtrOKTrue` (w.r.t. the exact ones: `+ ε₄`);
+* under `nm_EMA` a reading that is `RecOK`: `None` for `j + 1 < p`, then within `ε₄/α` of `emaExact`;
+* under `nm` exactly `kcBands` of those two STORED helper readings – the three-`None` dict until both
+  helpers have a reading (`j < p`), then `{lower: rnd(E − m·A), band: rnd(E), upper: rnd(E + m·A)}` –
+  which is `KcOwnOK` against the textbook channel `kcSeries` of the stored and of the exact true ranges. -/
+def KcSeriesOK (p n : Nat) (mult : Num K) (nm : String) (fld : Candle K → Num K)
+    (raw out : List (Candle K)) : Prop :=
+  out.length = raw.length ∧ ∀ j, j < raw.length →
+    (out.getD j default).bare = (raw.getD j default).bare ∧
+    readingByCandle (out.getD j default) (nm ++ "_ATR" ++ "_TR") = trStored raw j ∧
+    AtrOK p defaultRound (trS raw) j (readingByCandle (out.getD j default) (nm ++ "_ATR")) ∧
+    AtrOKTrue p defaultRound raw j (readingByCandle (out.getD j default) (nm ++ "_ATR")) ∧
+    RecOK p defaultRound (kcAlpha K p) (emaExact p (fieldAt fld raw)) j
+      (readingByCandle (out.getD j default) (nm ++ "_EMA")) ∧
+    readingByCandle (out.getD j default) nm
+      = kcBands mult n (readingByCandle (out.getD j default) (nm ++ "_EMA"))
+          (readingByCandle (out.getD j default) (nm ++ "_ATR")) ∧
+    KcOwnOK n (eps K defaultRound / kcAlpha K p) (eps K defaultRound / (1 / (p : K))) mult.toF
+      (kcSeries p mult.toF (fieldAt fld raw) (trS raw) j) (readingByCandle (out.getD j default) nm) ∧
+    KcOwnOK n (eps K defaultRound / kcAlpha K p) (eps K defaultRound / (1 / (p : K)) + eps K defaultRound)
+      mult.toF (kcSeries p mult.toF (fieldAt fld raw) (trExact raw) j)
+      (readingByCandle (out.getD j default) nm)
+
+theorem kc_rows_ok (p : Nat) (hp : 2 ≤ p) (nm : String) (fld : Candle K → Num K) (n : Nat) (mult : Num K)
+    (hk : IsKey nm) (hn : KcNames nm) (raw : List (Candle K)) (hraw : ∀ c ∈ raw, Plain c)
+    (rows : List (KcRow K)) (hl : rows.length = raw.length)
+    (hall : ∀ j, j < raw.length → KcOK p n mult (fieldAt fld raw) raw j (rows.getD j KcRow.dflt)) :
+    KcSeriesOK p n mult nm fld raw (decoKc nm raw rows) := by
+  refine ⟨decoWith_length _ _ _ hl, fun j hj => ?_⟩
+  have hcj : (decoKc nm raw rows).getD j default = kcOut nm (raw.getD j default) (rows.getD j KcRow.dflt) := by
+    rw [List.getD_eq_getElem?_getD, decoKc, decoWith_getElem? _ _ _ KcRow.dflt j hl hj]; rfl
+  have hpl : Plain (raw.getD j default) := getD_plain raw hraw j hj
+  have h := hall j hj
+  rw [hcj, kcOut_bare, kcOut_tr nm hn _ hpl, kcOut_atr nm hn _ hpl, kcOut_ema nm hn _ hpl, kcOut_own nm hk]
+  exact ⟨rfl, h.1, h.2.1, AtrOK.toTrue p (by omega) _ raw j _ h.2.1, h.2.2.1, h.2.2.2,
+    KcOK.own_stored p n mult _ raw j _ h, KcOK.own_true p n (by omega) mult _ raw j _ h⟩
+
+/-- **Keltner Channel, whole series, reading by reading**: for every raw list the row-major run of
+`kcTree` returns a list that is `KcSeriesOK`. -/
+theorem kc_series_readings (p : Nat) (hp : 2 ≤ p) (nm input : String) (fld : Candle K → Num K) (n : Nat)
+    (mult : Num K) (hk : IsKey nm) (hn : KcNames nm) (hin : NoDot input ∧ input ∈ Candle.attrNames)
+    (hattr : ∀ c : Candle K, c.attr input = some (.num (fld c)))
+    (raw : List (Candle K)) (hraw : ∀ c ∈ raw, Plain c) :
+    ∃ out : List (Candle K),
+      Gen.rowMajor (kcTree (F := K) nm n (p : Int) input mult (by omega) hn hin).S raw = .ok out ∧
+      KcSeriesOK p n mult nm fld raw out := by
+  obtain ⟨rows, hl, hrun, hall⟩ := kc_series p hp nm input fld n mult hn hin hattr raw hraw
+  exact ⟨_, hrun, kc_rows_ok p hp nm fld n mult hk hn raw hraw rows hl hall⟩
+
+/-! ### through the engine -/
+
+/-- **the engine's `calculate()`** on the raw candles returns, and its candles are `KcSeriesOK` -/
+theorem kc_engine (p : Nat) (hp : 2 ≤ p) (nm input : String) (fld : Candle K → Num K) (n : Nat)
+    (mult : Num K) (hk : IsKey nm) (hn : KcNames nm) (hin : NoDot input ∧ input ∈ Candle.attrNames)
+    (hattr : ∀ c : Candle K, c.attr input = some (.num (fld c)))
+    (raw : List (Candle K)) (hraw : ∀ c ∈ raw, Plain c) :
+    ∃ out : List (Candle K),
+      engineCalc (mkTop (.kc (p : Int) input mult : Kind K) nm n) raw = .ok out ∧
+      KcSeriesOK p n mult nm fld raw out := by
+  obtain ⟨out, hrun, hok⟩ := kc_series_readings p hp nm input fld n mult hk hn hin hattr raw hraw
+  refine ⟨out, ?_, hok⟩
+  have := ((kcTree (F := K) nm n (p : Int) input mult (by omega) hn hin).engine [] raw [] out rfl
+    (by simp) hraw).2 (by simpa using hrun)
+  simp only [List.nil_append] at this
+  exact this
+
+/-- **the batch run** (build the indicator over the whole stream, `calculate()` once; this is
+`C01.runBatch ind {} raw`) returns, and its candles are `KcSeriesOK` -/
+theorem kc_batch (p : Nat) (hp : 2 ≤ p) (nm input : String) (fld : Candle K → Num K) (n : Nat)
+    (mult : Num K) (hk : IsKey nm) (hn : KcNames nm) (hin : NoDot input ∧ input ∈ Candle.attrNames)
+    (hattr : ∀ c : Candle K, c.attr input = some (.num (fld c)))
+    (raw : List (Candle K)) (hraw : ∀ c ∈ raw, Plain c) :
+    ∃ out : List (Candle K),
+      candlesOf (runIndicator (mkTop (.kc (p : Int) input mult : Kind K) nm n) {} raw []) = .ok out ∧
+      KcSeriesOK p n mult nm fld raw out := by
+  obtain ⟨out, hrun, hok⟩ := kc_series_readings p hp nm input fld n mult hk hn hin hattr raw hraw
+  exact ⟨out, ((kcTree (F := K) nm n (p : Int) input mult (by omega) hn hin).batch_iff (MgrSpec.base K) raw hraw _).2 hrun,
+    hok⟩
+
+/-- **whenever the batch run returns, its candles carry exactly those readings** (and it does
+return: `kc_batch`) -/
+theorem kc_batch_readings (p : Nat) (hp : 2 ≤ p) (nm input : String) (fld : Candle K → Num K) (n : Nat)
+    (mult : Num K) (hk : IsKey nm) (hn : KcNames nm) (hin : NoDot input ∧ input ∈ Candle.attrNames)
+    (hattr : ∀ c : Candle K, c.attr input = some (.num (fld c)))
+    (raw : List (Candle K)) (hraw : ∀ c ∈ raw, Plain c) (out : List (Candle K))
+    (hout : candlesOf (runIndicator (mkTop (.kc (p : Int) input mult : Kind K) nm n) {} raw []) = .ok out) :
+    KcSeriesOK p n mult nm fld raw out := by
+  obtain ⟨out', hrun, hok⟩ := kc_series_readings p hp nm input fld n mult hk hn hin hattr raw hraw
+  have hr : Gen.rowMajor (kcTree (F := K) nm n (p : Int) input mult (by omega) hn hin).S raw = .ok out :=
+    ((kcTree (F := K) nm n (p : Int) input mult (by omega) hn hin).batch_iff (MgrSpec.base K) raw hraw out).1 hout
+  rw [hrun] at hr
+  cases hr
+  exact hok
+
+/-- **… for every append schedule**: whenever a live history (construction over `init`,
+`calculate()`, then any appends) returns, its candles are `KcSeriesOK` over the whole stream. -/
+theorem kc_live (p : Nat) (hp : 2 ≤ p) (nm input : String) (fld : Candle K → Num K) (n : Nat)
+    (mult : Num K) (hk : IsKey nm) (hn : KcNames nm) (hin : NoDot input ∧ input ∈ Candle.attrNames)
+    (hattr : ∀ c : Candle K, c.attr input = some (.num (fld c)))
+    (init : List (Candle K)) (chunks : List (List (Candle K)))
+    (hraw : ∀ c ∈ init ++ chunks.flatten, Plain c) (snap : List (Candle K))
+    (hsnap : candlesOf (runIndicator (mkTop (.kc (p : Int) input mult : Kind K) nm n) {} init chunks) = .ok snap) :
+    KcSeriesOK p n mult nm fld (init ++ chunks.flatten) snap := by
+  obtain ⟨out', hrun, hok⟩ := kc_series_readings p hp nm input fld n mult hk hn hin hattr _ hraw
+  have h := (kcTree (F := K) nm n (p : Int) input mult (by omega) hn hin).live_refines (MgrSpec.base K)
+    init chunks hraw snap hsnap
+  have h' : Gen.rowMajor (kcTree (F := K) nm n (p : Int) input mult (by omega) hn hin).S
+      (init ++ chunks.flatten) = .ok snap := h
+  rw [hrun] at h'
+  cases h'
+  exact hok
+
+/-! ### non-vacuity: the five demo candles of HexProps/C04.lean over ℚ -/
+
+/-- the five raw candles `C04.demoRaw` -/
+def kcDemoRaw : List (Candle ℚ) :=
+  [Demo.mk 10 12 9 11 100, Demo.mk 11 13 10 12 200, Demo.mk 12 15 11 14 300, Demo.mk 14 16 13 15 0,
+   Demo.mk 15 15 15 15 0]
+
+theorem kcDemoRaw_plain : ∀ c ∈ kcDemoRaw, Plain c := by
+  intro c hc
+  simp only [kcDemoRaw, List.mem_cons, List.not_mem_nil, or_false] at hc
+  rcases hc with rfl | rfl | rfl | rfl | rfl <;> exact ⟨rfl, rfl⟩
+
+/-- the demo closes: 11, 12, 14, 15, 15 -/
+theorem kcDemo_close : fieldAt (·.c) kcDemoRaw 0 = 11 ∧ fieldAt (·.c) kcDemoRaw 1 = 12 ∧
+    fieldAt (·.c) kcDemoRaw 2 = 14 ∧ fieldAt (·.c) kcDemoRaw 3 = 15 ∧ fieldAt (·.c) kcDemoRaw 4 = 15 := by
+  refine ⟨?_, ?_, ?_, ?_, ?_⟩ <;> simp [fieldAt, kcDemoRaw, Demo.mk]
+
+theorem kcNames_demo : KcNames "KC_2" :=
+  ⟨by decide, by decide, by decide, by decide, by decide, by decide, by decide, by decide, by decide⟩
+
+example : ∃ rows : List (KcRow ℚ), rows.length = kcDemoRaw.length ∧
+    Gen.rowMajor (kcTree (F := ℚ) "KC_2" 4 ((2 : Nat) : Int) "close" (fl 2) (by decide) kcNames_demo
+      ⟨noDot_close, by decide⟩).S kcDemoRaw = .ok (decoKc "KC_2" kcDemoRaw rows) ∧
+    ∀ j, j < kcDemoRaw.length →
+      KcOK 2 4 (fl 2) (fieldAt (·.c) kcDemoRaw) kcDemoRaw j (rows.getD j KcRow.dflt) :=
+  kc_series 2 (by norm_num) "KC_2" "close" (·.c) 4 (fl 2) kcNames_demo ⟨noDot_close, by decide⟩
+    (fun _ => rfl) kcDemoRaw kcDemoRaw_plain
+
+example : ∃ out : List (Candle ℚ),
+    candlesOf (runIndicator (mkTop (.kc ((2 : Nat) : Int) "close" (fl 2) : Kind ℚ) "KC_2" 4) {} kcDemoRaw [])
+      = .ok out ∧ KcSeriesOK 2 4 (fl 2) "KC_2" (·.c) kcDemoRaw out :=
+  kc_batch 2 (by norm_num) "KC_2" "close" (·.c) 4 (fl 2) (by decide) kcNames_demo ⟨noDot_close, by decide⟩
+    (fun _ => rfl) kcDemoRaw kcDemoRaw_plain
+
+/-- the textbook EMA on the demo closes 11, 12, 14, 15, 15 (`period = 2`, `α = 2/3`) -/
+example : (List.range 5).map (emaSeries 2 (fieldAt (·.c) kcDemoRaw))
+    = [none, some (23/2), some (79/6), some (259/18), some (799/54)] := by
+  simp [List.range, List.range.loop, emaSeries, emaExact, kcAlpha, recExact, winMean, rsum, kcDemo_close]
+  norm_num
+
+/-- the textbook channel on the demo candles (`period = 2`, multiplier 2): nothing on candles 0, 1
+(the EMA alone starts on candle 1), then `(EMA − 2·ATR, EMA, EMA + 2·ATR)` with `ATR = 7/2, 13/4, 13/8` -/
+example : (List.range 5).map (kcSeries 2 2 (fieldAt (·.c) kcDemoRaw) (trS kcDemoRaw))
+    = [none, none, some (37/6, 79/6, 121/6), some (71/9, 259/18, 188/9), some (1247/108, 799/54, 1949/108)] := by
+  have h1 : trS kcDemoRaw 1 = 3 := by
+    show ((Num.int 3 : Num ℚ).roundBy defaultRound).toF = 3
+    simp [Num.roundBy]
+  have h2 : trS kcDemoRaw 2 = 4 := by
+    show ((Num.int 4 : Num ℚ).roundBy defaultRound).toF = 4
+    simp [Num.roundBy]
+  have h3 : trS kcDemoRaw 3 = 3 := by
+    show ((Num.int 3 : Num ℚ).roundBy defaultRound).toF = 3
+    simp [Num.roundBy]
+  have h4 : trS kcDemoRaw 4 = 0 := by
+    show ((Num.int 0 : Num ℚ).roundBy defaultRound).toF = 0
+    simp [Num.roundBy]
+  simp [List.range, List.range.loop, kcSeries, emaExact, atrExact, kcAlpha, recExact, winMean, rsum,
+    kcDemo_close, h1, h2, h3, h4]
+  norm_num
+
+/-- the batch run on the demo candles: the own dict is the three-`None` dict on candles 0 and 1
+(on candle 1 the EMA helper already has a reading, the ATR helper not yet) and an ordered triple of
+floats on candle 2 -/
+example : ∃ out : List (Candle ℚ),
+    candlesOf (runIndicator (mkTop (.kc ((2 : Nat) : Int) "close" (fl 2) : Kind ℚ) "KC_2" 4) {} kcDemoRaw [])
+      = .ok out ∧
+    readingByCandle (out.getD 1 default) "KC_2" = kcNoneDict ∧
+    (∃ e : ℚ, readingByCandle (out.getD 1 default) ("KC_2" ++ "_EMA") = .flt e) ∧
+    readingByCandle (out.getD 1 default) ("KC_2" ++ "_ATR") = .none ∧
+    ∃ l b u : ℚ, readingByCandle (out.getD 2 default) "KC_2"
+        = .dict [("lower", .num (.flt l)), ("band", .num (.flt b)), ("upper", .num (.flt u))] ∧
+      l ≤ b ∧ b ≤ u ∧ |b - 79/6| ≤ eps ℚ 4 + eps ℚ 4 / (2/3) := by
+  obtain ⟨out, hrun, _, hall⟩ := kc_batch 2 (by norm_num) "KC_2" "close" (·.c) 4 (fl 2) (by decide) kcNames_demo
+    ⟨noDot_close, by decide⟩ (fun _ => rfl) kcDemoRaw kcDemoRaw_plain
+  refine ⟨out, hrun, ?_⟩
+  obtain ⟨_, _, hA1, _, hE1, _, hO1, _⟩ := hall 1 (by decide)
+  obtain ⟨_, _, _, _, _, _, hO2, _⟩ := hall 2 (by decide)
+  have hO1' : readingByCandle (out.getD 1 default) "KC_2" = kcNoneDict := hO1
+  obtain ⟨e, he, _⟩ := hE1.2 (by decide)
+  have hO2' : KcOwnOK 4 (eps ℚ defaultRound / kcAlpha ℚ 2) (eps ℚ defaultRound / (1 / ((2 : Nat) : ℚ))) (fl 2 : Num ℚ).toF
+      (some (emaExact 2 (fieldAt (·.c) kcDemoRaw) 2 - (fl 2 : Num ℚ).toF * atrExact 2 (trS kcDemoRaw) 2,
+        emaExact 2 (fieldAt (·.c) kcDemoRaw) 2,
+        emaExact 2 (fieldAt (·.c) kcDemoRaw) 2 + (fl 2 : Num ℚ).toF * atrExact 2 (trS kcDemoRaw) 2))
+      (readingByCandle (out.getD 2 default) "KC_2") := hO2
+  obtain ⟨l, b, u, hd, _, hb, _, hord⟩ := hO2'
+  have hm : (0 : ℚ) ≤ (fl 2 : Num ℚ).toF := by simp
+  have hema : emaExact 2 (fieldAt (·.c) kcDemoRaw) 2 = 79/6 := by
+    simp [List.range, List.range.loop, emaExact, kcAlpha, recExact, winMean, rsum, kcDemo_close]
+    norm_num
+  have hal : kcAlpha ℚ 2 = 2/3 := by unfold kcAlpha; norm_num
+  rw [hema, hal] at hb
+  exact ⟨hO1', ⟨e, he⟩, hA1.1.1 (by decide), l, b, u, hd, (hord hm).1, (hord hm).2, hb⟩
 
 end Numeric
 end Hex
+
+#print axioms Hex.Numeric.kc_step
+#print axioms Hex.Numeric.kc_series
+#print axioms Hex.Numeric.kc_series_readings
+#print axioms Hex.Numeric.kc_engine
+#print axioms Hex.Numeric.kc_batch
+#print axioms Hex.Numeric.kc_batch_readings
+#print axioms Hex.Numeric.kc_live
